@@ -86,3 +86,83 @@ def scheduler_end_to_end(tier="quick", seed=0):
                         viol.append(dict(clause=f"C16: extra check {c.__name__} fails on yielded schedule", input=f"bounds {sched[0].bounds}, template {tb}", observed=f"{y[0].bounds}"))
     return dict(domain="matmul-like 3-operand schedules with bounds from a small set x 5 template bound vectors, 1-D/2-D single-operand tilings; first 12 yields each; with/without pure-output-stationary check",
                 cases=cases, yielded_schedules=yielded, violations=viol)
+
+
+def _rank(rows):
+    from fractions import Fraction
+
+    m = [[Fraction(x) for x in r] for r in rows]
+    rank = 0
+    ncols = len(m[0]) if m else 0
+    for c in range(ncols):
+        piv = next((i for i in range(rank, len(m)) if m[i][c] != 0), None)
+        if piv is None:
+            continue
+        m[rank], m[piv] = m[piv], m[rank]
+        for i in range(len(m)):
+            if i != rank and m[i][c] != 0:
+                f = m[i][c] / m[rank][c]
+                m[i] = [a - f * b for a, b in zip(m[i], m[rank])]
+        rank += 1
+    return rank
+
+
+def _same_rowspace(A, B):
+    ra, rb = _rank(A), _rank(B)
+    return ra == rb == _rank(list(A) + list(B))
+
+
+def template_matches(tier="quick", seed=0):
+    """TemplatePattern.matches (float SVD) accepts exactly the patterns that span the same index subspace as the
+    template: exact rational row-space oracle, all small integer matrices + the broadcast / inner_dims reductions"""
+    import numpy as np
+    from pyvc import shim  # noqa: F401
+
+    from snaxc.ir.dart.access_pattern import SchedulePattern, TemplatePattern, same_nonzero_singular_vectors
+    from snaxc.ir.dart.affine_transform import AffineTransform
+
+    vals = (-1, 0, 1, 2)
+    rnd = random.Random(seed)
+    cases = 0
+    viol = []
+
+    def mats(r, c, limit):
+        allm = list(itertools.product(vals, repeat=r * c))
+        if len(allm) > limit:
+            allm = rnd.sample(allm, limit)
+        return [[list(m[i * c:(i + 1) * c]) for i in range(r)] for m in allm]
+
+    lim = 40 if tier == "quick" else 160
+    for r, c in ((1, 1), (1, 2), (2, 2), (2, 3), (3, 3), (2, 4), (3, 4)):
+        A_s = mats(r, c, lim)
+        for A in A_s:
+            for B in rnd.sample(A_s, min(len(A_s), 12)):
+                cases += 1
+                got = bool(same_nonzero_singular_vectors(np.array(A), np.array(B)))
+                exp = _same_rowspace(A, B)
+                if got != exp and len(viol) < 5:
+                    viol.append(dict(clause="C16: same_nonzero_singular_vectors <=> equal row spaces over Q", input=f"{A} vs {B}", expected=exp, observed=got))
+    # matches(): inner_dims reduction when the schedule has more dims, False when fewer, broadcast slicing of template rows
+    for tr, sr, td, sd in ((2, 2, 2, 2), (2, 2, 2, 3), (2, 2, 2, 4), (3, 2, 2, 2), (3, 2, 3, 4), (2, 2, 3, 2), (2, 3, 2, 3), (2, 3, 3, 3), (2, 4, 3, 3), (1, 2, 2, 3)):
+        for _ in range(60 if tier == "quick" else 400):
+            T = [[rnd.choice(vals) for _ in range(td)] for _ in range(tr)]
+            S = [[rnd.choice(vals) for _ in range(sd)] for _ in range(sr)]
+            tp = TemplatePattern([None] * td, AffineTransform(np.array(T), np.zeros(tr, dtype=int)))
+            sp = SchedulePattern([2] * sd, AffineTransform(np.array(S), np.zeros(sr, dtype=int)))
+            cases += 1
+            try:
+                got = bool(tp.matches(sp))
+            except Exception as e:  # noqa
+                got = f"{type(e).__name__}"
+            if sd < td:
+                exp = False
+            else:
+                S_in = [row[sd - td:] for row in S]
+                # documented broadcast: the schedule may address FEWER result rows than the template (outer rows dropped)
+                T_in = T[tr - sr:] if tr > sr else T
+                exp = _same_rowspace(T_in, S_in)
+            if got != exp and len(viol) < 5:
+                viol.append(dict(clause="C16: TemplatePattern.matches <=> inner dims of the schedule span the template's subspace",
+                                 input=f"template {T} schedule {S}", expected=exp, observed=got))
+    return dict(domain="integer matrices with entries in {-1,0,1,2} up to 3x4 (sampled pairs), plus matches() on random template/schedule pairs of 10 rank/dim combinations",
+                cases=cases, violations=viol)
